@@ -254,6 +254,13 @@ func c20Helpers() []helper {
 		{"IRIs.Contains", func(it ap.Item, _ *cbProbe) string {
 			return fmt.Sprint(ap.IRIs{"https://example.com/a"}.Contains(it))
 		}},
+		// a list holding the nil kind against a list of the same length holding something in its place
+		{"ItemsEqual([a,x],[a,b])", func(it ap.Item, _ *cbProbe) string {
+			a, b := ap.IRI("https://example.com/a"), &ap.Object{ID: "https://example.com/b", Type: ap.NoteType}
+			l1, l2 := ap.ItemCollection{a, it}, ap.ItemCollection{a, b}
+			l3, l4 := ap.ItemCollection{it, a, it}, ap.ItemCollection{b, a, b}
+			return fmt.Sprint(ap.ItemsEqual(l1, l2), ap.ItemsEqual(l2, l1), l1.Equals(l2), l2.Equals(l1), ap.ItemsEqual(l3, l4), ap.ItemsEqual(l4, l3))
+		}},
 		// the nil kind as the argument of Remove on a list that holds nil entries of several kinds next to a valid member:
 		// the valid member stays, wherever the nil entries stand
 		{"[x,obj,nil].Remove(x)", func(it ap.Item, _ *cbProbe) string {
@@ -498,6 +505,8 @@ func c20Neutral(h string) string {
 		return "https://example.com/a/inbox https://example.com/a/outbox https://example.com/a/followers https://example.com/a/following https://example.com/a/liked"
 	case "DerefItem":
 		return "0"
+	case "ItemsEqual([a,x],[a,b])":
+		return "false false false false false false"
 	case "[x,obj,nil].Remove(x)":
 		return "true true true true "
 	case "kinds{act,x,iri}.Contains(iri)":
